@@ -758,7 +758,9 @@ def main():
     out = ["/* generated by ll2c.py from %s -- do not edit */" % a.ll,
            "#include <stdint.h>", "#include <stddef.h>",
            "void *memcpy(void*, const void*, size_t); void *memset(void*, int, size_t); void *memmove(void*, const void*, size_t);",
-           "uint8_t LL_undef_u8(void); uint16_t LL_undef_u16(void); uint32_t LL_undef_u32(void); uint64_t LL_undef_u64(void); _Bool LL_undef_u1(void); void* LL_undef_ptr(void); double LL_undef_f(void);",
+           "/* LLVM undef = an arbitrary value (D5): an uninitialised local is nondeterministic in CBMC */",
+           "static inline uint8_t LL_undef_u8(void) { uint8_t x; return x; } static inline uint16_t LL_undef_u16(void) { uint16_t x; return x; } static inline uint32_t LL_undef_u32(void) { uint32_t x; return x; }",
+           "static inline uint64_t LL_undef_u64(void) { uint64_t x; return x; } static inline _Bool LL_undef_u1(void) { uint8_t x; return (x & 1) != 0; } static inline void* LL_undef_ptr(void) { void *x; return x; } static inline double LL_undef_f(void) { double x; return x; }",
            "static inline double LL_f64_bits(uint64_t b) { double d; memcpy(&d, &b, 8); return d; }",
            "#define LL_memcpy(d,s,n) memmove((d),(s),(n))", "#define LL_memset(d,v,n) memset((d),(int)(v),(n))",
            "#ifndef LL_THROW", "extern _Bool LL_nothrow;",
